@@ -96,9 +96,52 @@ C20Scenario(x) ==
    calls |-> setup \o << [op |-> op.name, token |-> <<97>>, amount |-> <<1>>] >>,
    plan |-> [exchanges |-> pl]]
 
-Cases == CASE Mode = "C08" -> C08Cases [] Mode = "C18" -> C18Cases [] Mode = "C20" -> C20Cases
+(* ------------------------------------------------------------------ C09 / C10: faults and stalls *)
+\* per operation: the kinds of its exchanges (frames after the acknowledgement: 2 for exchanges answered by status + completion)
+FOps == << [name |-> "read_card", pre |-> <<>>, frames |-> <<1>>, tid |-> "52523535"],
+           [name |-> "begin", pre |-> <<>>, frames |-> <<2>>, tid |-> "52523535"],
+           [name |-> "commit", pre |-> <<"begin">>, frames |-> <<2, 1, 1>>, tid |-> "52523535"],
+           [name |-> "cancel", pre |-> <<"begin">>, frames |-> <<1, 1, 1>>, tid |-> "52523535"],
+           [name |-> "configure", pre |-> <<>>, frames |-> <<1, 1, 1, 1, 1>>, tid |-> "11112222"] >>
+OkPlan == [o |-> "ok", status |-> [amount |-> <<1>>], uid |-> <<1, 2, 3, 4>>]
+FaultKinds == IF Mode = "C10" THEN {"silence", "partial"} ELSE {"close", "garbage", "malformed", "partial", "partial_close", "nack", "silence"}
+\* faults in the handshake of a fresh connection
+HsFaults == (IF Mode = "C10" THEN {} ELSE {[connect |-> "refused"], [sysinfo |-> [serial |-> "DEADBEEF"]]})
+            \cup {[connect |-> "stall"]}
+            \cup {[registration |-> [fault |-> [pos |-> p, kind |-> k]]] : p \in 0..1, k \in FaultKinds}
+            \cup {[sysinfo |-> [fault |-> [pos |-> p, kind |-> k]]] : p \in 0..1, k \in FaultKinds}
+Timeouts == IF Mode = "C10" THEN (IF Thorough THEN 0..255 ELSE {0, 1, 15, 253, 254, 255}) ELSE {15}
+FaultCases ==
+  SetSeq({[k |-> "hs", op |-> z[1], hs |-> z[2], e |-> 0, p |-> 0, kind |-> "", to |-> z[3]] :
+            z \in {w \in (1..Len(FOps)) \X HsFaults \X Timeouts : FOps[w[1]].name = "read_card" \/ w[3] = 15}})
+  \o SetSeq({[k |-> "ex", op |-> x[1], hs |-> [connect |-> "ok"], e |-> x[2], p |-> x[3], kind |-> x[4], to |-> x[5]] :
+              x \in {y \in (1..Len(FOps)) \X (1..5) \X (0..2) \X FaultKinds \X Timeouts :
+                       y[2] <= Len(FOps[y[1]].frames) /\ y[3] <= FOps[y[1]].frames[y[2]] /\ (FOps[y[1]].name = "read_card" \/ y[5] = 15)}})
+  \o (IF Mode = "C10" THEN SetSeq({[k |-> "nocollapse", op |-> 1, hs |-> [connect |-> "ok"], e |-> 1, p |-> 1, kind |-> "", to |-> t] : t \in Timeouts})
+       ELSE <<>>)
+FaultScenario(x) ==
+  LET op == FOps[x.op]
+      setup == [i \in 1..Len(op.pre) |-> [op |-> op.pre[i], token |-> <<97>>, amount |-> <<>>]]
+      n == Len(op.frames)
+      pl == IF x.k = "ex"
+            THEN [i \in 1..Len(op.pre) |-> OkPlan] \o [i \in 1..(x.e - 1) |-> OkPlan]
+                 \o << [o |-> "ok", status |-> [amount |-> <<1>>], uid |-> <<1, 2, 3, 4>>, fault |-> [pos |-> x.p, kind |-> x.kind]] >>
+                 \o [i \in 1..(n + 3) |-> OkPlan]
+            ELSE IF x.k = "nocollapse" THEN << [o |-> "abort", code |-> 108, delay_ms |-> 1000 * x.to] >>
+            ELSE [i \in 1..(Len(op.pre) + n + 3) |-> OkPlan] IN
+  [config |-> [BaseCfg EXCEPT !.terminal_id = op.tid, !.read_card_timeout = x.to],
+   tag |-> IF x.k = "nocollapse" THEN "nocollapse" ELSE "",
+   start |-> IF x.k = "hs" THEN "disconnected" ELSE "connected",
+   term |-> [next_receipt |-> 1],
+   calls |-> setup \o << [op |-> op.name, token |-> <<97>>, amount |-> <<1>>] >>
+             \o (IF x.k = "nocollapse" THEN <<>> ELSE << [op |-> "read_card", token |-> <<>>, amount |-> <<>>] >>),
+   plan |-> [exchanges |-> pl, handshake |-> IF x.k = "hs" THEN <<x.hs>> ELSE <<>>,
+             default |-> OkPlan]]
+
+Cases == CASE Mode = "C08" -> C08Cases [] Mode = "C18" -> C18Cases [] Mode = "C20" -> C20Cases [] Mode \in {"C09", "C10"} -> FaultCases
 AllCases == SubSeq(Cases, 1, Len(Cases))
 ScenarioOf(x) == CASE Mode = "C08" -> C08Scenario(x) [] Mode = "C18" -> C18Scenario(x) [] Mode = "C20" -> C20Scenario(x)
+                   [] Mode \in {"C09", "C10"} -> FaultScenario(x)
 
 VARIABLE g
 GStride == 16
